@@ -177,11 +177,17 @@ func (d *duplexHTTPCall) Read(data []byte) (int, error) {
 	}
 	verifYield(d.ctx, "read.body")
 	n, err := d.response.Body.Read(data)
-	if err != nil && !errors.Is(err, io.EOF) {
+	if err != nil {
 		if ctxErr := d.ctx.Err(); ctxErr != nil {
 			// The context's end is why the stream broke, whatever the transport
-			// calls the failure.
-			err = ctxErr
+			// calls the failure - even a clean io.EOF: cancelling an HTTP/1.1
+			// request closes the connection, a TLS connection announces that
+			// before its socket is closed, and a server that hears the
+			// announcement may end the response (with its own classification of
+			// the cancellation, or cleanly) in time for a read that was blocked
+			// since before the context ended. What the server sends in reaction
+			// to our cancellation is not the call's outcome.
+			n, err = 0, ctxErr
 		}
 	}
 	// A context that finishes while the read is blocked makes the body fail
